@@ -290,3 +290,88 @@ def interval_from_decisions(path, var_sub, lo=0, hi=4294967295):
         elif op == "Eq":
             lo, hi = max(lo, c), min(hi, c)
     return (lo, hi)
+
+
+def format_on_path(m, p):
+    """the header format a path of add_chunk uses: variant name if decided on the path, else None"""
+    fmt = None
+    for t in p:
+        if t[0] == "call" and t[1].endswith("add_initial_timestamp") and t[2]:
+            a = t[2][0]
+            mm = re.match(r"^&ChunkHeaderFormat::(\w+)$", a)
+            if mm:
+                fmt = mm.group(1)
+    if fmt is None:
+        for t in p:
+            if t[0] == "when" and t[1].startswith("(discr(call(serializer::get_header_format)) Eq "):
+                k = int(re.search(r"Eq (\d+)\)", t[1]).group(1))
+                if t[2].startswith("other"):
+                    fmt = m.variants[k]
+    return fmt
+
+
+def timestamp_semantics(m, rep, rule):
+    """format 0 carries the absolute timestamp, the compressed formats the delta to the stored previous header;
+    the reader sets / adds accordingly"""
+    full = m.variants[0]
+    n_full = 0
+    bad = []
+    n_delta = 0
+    for p in m.add_chunk_paths:
+        its = [t for t in p if t[0] == "call" and t[1].endswith("add_initial_timestamp")]
+        if not its or len(its[0][2]) < 2:
+            continue
+        hdr = its[0][2][1]
+        fields = hdr.split(", ")
+        if len(fields) < 3:
+            continue
+        tsf = fields[2]
+        fmt = format_on_path(m, p)
+        if fmt == full:
+            n_full += 1
+            if not re.match(r"^load\(\*?load\(message\)\.timestamp\.value\)$", tsf):
+                conds = " ".join(grammar.fmt_tok(t) for t in p if t[0] == "when")[:260]
+                bad.append("a Full (type 0) header is written with timestamp field %s instead of the message's absolute timestamp on the path %s" % (tsf[:140], conds))
+        elif fmt is None:
+            # format computed by get_header_format: which variants can it still be on this path?
+            excluded_full = any(t[0] == "when" and t[1].startswith("(discr(call(serializer::get_header_format)) Eq 0)") and t[2] == "0" for t in p) or \
+                any(t[0] == "when" and t[1].startswith("(discr(call(serializer::get_header_format)) Ne 0)") and t[2].startswith("other") for t in p)
+            shape = m.ctx.ret_shape(m.b["get_header_format"].key)
+            may_full = (shape is None or shape.get("variants") is None or 0 in shape["variants"]) and not excluded_full
+            if may_full:
+                conds = " ".join(grammar.fmt_tok(t) for t in p if t[0] == "when")[:200]
+                bad.append("the format returned by get_header_format can be Full on the path %s, where the header's timestamp field is %s, not the absolute timestamp" % (conds, tsf[:120]))
+                continue
+            # not Full on this path: must be the delta to the previous header
+            n_delta += 1
+            if not re.match(r"^\(load\(\*?load\(message\)\.timestamp\.value\) SubW load\(.*Some\.0\.timestamp\.value\)\)$", tsf):
+                bad.append("a compressed header is written with timestamp field %s instead of (message timestamp - previous timestamp)" % tsf[:160])
+    rep.floor(rule + ".paths", "add_chunk paths writing a Full header", n_full, 3)
+    rep.check(rule, "writer:timestamp-semantics", not bad and n_delta >= 1,
+              "Full headers carry the absolute timestamp (%d paths), compressed headers the delta to the stored header (%d paths)" % (n_full, n_delta),
+              "; ".join(bad[:2]) or "no delta path found", m.b["add_chunk"].span)
+    # reader
+    rbad = []
+    nr = 0
+    for (vi, s), paths in m.r_paths.items():
+        for sp in paths:
+            reads_ = [t[1] for t in sp if t[0] == "read"]
+            if reads_[:1] != ["u24be"]:
+                continue
+            fin = [t for t in sp if t[0] == "final"]
+            if not fin:
+                continue
+            d = dict(fin[-1][1])
+            v = d.get("current_header.timestamp.value") or d.get("current_header.timestamp")
+            st = [t for t in sp if t[0] == "store" and t[1] == "current_header.timestamp_field"]
+            if not st:
+                continue
+            nr += 1
+            if vi == 0:
+                if v != "#1":
+                    rbad.append("format %s sets the timestamp to %s (expected the value read)" % (m.variants[vi], v))
+            else:
+                if not (v and "AddW" in v and "current_header.timestamp.value" in v):
+                    rbad.append("format %s sets the timestamp to %s (expected previous timestamp + delta)" % (m.variants[vi], v))
+    rep.check(rule, "reader:timestamp-semantics", not rbad and nr >= 3, "the reader sets the timestamp on format 0 and adds the delta otherwise (%d stage paths)" % nr,
+              "; ".join(rbad[:3]) or "timestamp stage paths not found", m.b["get_next"].span)
